@@ -483,6 +483,32 @@ class EGen:
     h = self.fresh("h")
     return [f"def {h}() -> int:", f"  yield {self.either()}"]
 
+  def b_string_annotation(self):
+    """Mistakes inside *strings* pytype evaluates later in a temporary frame: quoted annotations
+    and `# type:` comments (their errors are first logged at line 1 of that frame, reverted, and
+    re-logged at the real line)."""
+    k = self.r.randrange(9)
+    h, v, u = self.fresh("k"), self.fresh(), self.undefined
+    if k == 0:
+      return [f"def {h}(a: \"{u()}\") -> \"{u()}\":", "  return a"]
+    if k == 1:
+      return [f"def {h}(a: \"A.missing\", b: \"List[{u()}]\" = None):", "  return a"]
+    if k == 2:
+      return [f"{v}: \"{u()}\" = None"]
+    if k == 3:
+      return [f"{v} = []  # type: {u()}"]
+    if k == 4:
+      return [f"def {h}(x, y):", f"  # type: ({u()}, int) -> {u()}", "  return x"]
+    if k == 5:
+      return [f"class {self.fresh('Q')}:", f"  def m(self, o: \"{u()}\") -> \"A.zork\":", "    return None",
+              "  w: \"List[A.gone]\" = []"]
+    if k == 6:
+      return [f"{v}: \"1 + 'a'\" = None", f"def {h}(p: \"gi('s')\",", f"       q: \"{u()}\" = None): pass"]
+    if k == 7:
+      return [f"{v} = None  # type: A.nope", f"{self.fresh()}: \"List[int, str]\" = []"]
+    return [f"def {h}(", f"    a: \"{u()}\",", f"    b: \"A.missing\" = None,", f") -> \"{u()}\":",
+            f"  c = {self.either()}", "  return a"]
+
   def b_directive_time(self):
     """Errors pytype logs while it parses directive comments."""
     v = self.fresh()
@@ -504,15 +530,25 @@ class EGen:
       ("class_body", 2), ("override", 1), ("semicolon", 1), ("backslash", 1), ("literal_ml", 1),
       ("lambda", 1), ("called_from", 2), ("assert", 1), ("augassign", 1), ("try", 1), ("import", 2),
       ("mlstring", 1), ("annassign", 3), ("misc_stmt", 2), ("nested_def", 1), ("match", 1),
-      ("generator", 1), ("directive_time", 2),
+      ("generator", 1), ("directive_time", 2), ("string_annotation", 3),
   ]
 
   def program(self, nblocks):
     names = [n for n, _ in self.BLOCKS]
     weights = [w for _, w in self.BLOCKS]
     lines = PRELUDE.splitlines()
-    for _ in range(nblocks):
-      kind = self.r.choices(names, weights)[0]
+    forced = []
+    if self.r.random() < 0.5:
+      # the first physical line of the file carries an error (a directive there covers "line 1",
+      # which is also where errors of temporary frames are first logged)
+      first = self.r.choice([f"first_v = {self.undefined()}", "first_v = [].foo", "first_v = 1 + 'a'",
+                             f"first_v = {self.undefined()}.nope", f"import {self.fresh('nonexistent_')}",
+                             f"first_v = ({self.undefined()}, [].foo)"])
+      lines.insert(0, first)
+      self.kinds.append("first_line_error")
+      forced = ["string_annotation"]
+    for i in range(nblocks + len(forced)):
+      kind = forced[i - nblocks] if i >= nblocks else self.r.choices(names, weights)[0]
       blk = getattr(self, "b_" + kind)()
       blk = [x for l in blk for x in l.split("\n")]
       self.kinds.append(kind)
@@ -692,6 +728,33 @@ class OGen:
       else:
         self.emit(f"{self.name()}: Dict[str, {ann}] = {{'k': {lit}}}")
 
+  def hidden_bases(self, classes):
+    """Classes one of whose bases has no module-level name (a class local to a function, reached
+    through a call): the stub writer has to fold that hidden base into the subclass, including
+    the hidden base's own 2-4 bases, whose order is the MRO and must not be touched."""
+    r = self.r
+    for i in range(2):
+      k = min(len(classes), r.randint(2, 4))
+      if k < 2:
+        return
+      pick = sorted(r.sample(range(len(classes)), k), reverse=True)   # same order rule as klass()
+      bases = [classes[j] for j in pick]
+      mk, hid, c = self.name(), self.name(cap=True), self.name(cap=True)
+      self.emit(f"def {mk}():", f"  class {hid}({', '.join(bases)}):")
+      if i == 0 or r.random() < 0.5:      # with overrides / own members
+        self.emit(f"    {self.name()} = {r.choice(_VALUES)}",
+                  f"    def {self.name()}(self, p=None):", f"      return {r.choice(_VALUES)}")
+      else:
+        self.emit("    pass")
+      self.emit(f"  return {hid}")
+      mixin = ""
+      if r.random() < 0.4:
+        mixin = self.name(cap=True)
+        self.emit(f"class {mixin}:", f"  {self.name()} = {r.choice(_VALUES)}")
+      self.emit(f"class {c}({mk}(){', ' + mixin if mixin else ''}):",
+                f"  {self.name()} = {r.choice(_VALUES)}",
+                f"  def {self.name()}(self):", f"    return {r.choice(_VALUES)}")
+
   def program(self):
     r = self.r
     self.emit("import collections", "import enum",
@@ -715,6 +778,7 @@ class OGen:
     classes = []
     for _ in range(r.randint(3, 5)):
       classes.append(self.klass(classes))
+    self.hidden_bases(classes)
     # generic / namedtuple / enum flavours
     nt = self.name(cap=True)
     self.emit(f"{nt} = collections.namedtuple('{nt}', ['{self.name()}', '{self.name()}'])")
